@@ -20,4 +20,20 @@ if ! cargo build --quiet --profile checked >"$LOG" 2>&1; then
   exit 2
 fi
 rm -f "$LOG"
+if [ "$ID" = "C16" ] || [ "$ID" = "c16" ]; then
+  # extra build profiles for the cross-profile differential, and the Send+Sync crate
+  for prof in fast dev0; do
+    if ! cargo build --quiet --profile $prof >"$LOG" 2>&1; then
+      echo "INCONCLUSIVE property=$ID reason=profile-$prof-build-failed"; tail -20 "$LOG"; rm -f "$LOG"; exit 2
+    fi
+  done
+  TLOG="$HERE/harness/target/c16-traits.log"
+  if (cd c16_traits && cargo check --quiet --target-dir ../target/c16 >"$TLOG" 2>&1); then
+    export C16_TRAITS=ok
+  elif grep -q -E "cannot be (sent|shared) between threads safely" "$TLOG"; then
+    export C16_TRAITS="fail:$TLOG"
+  else
+    echo "INCONCLUSIVE property=$ID reason=c16_traits-crate-build-failed"; tail -20 "$TLOG"; exit 2
+  fi
+fi
 exec ./target/checked/vcheck "$@"
